@@ -1,8 +1,11 @@
 """C03 — right result to the right future, at-most-once execution, map == map."""
 from ..ech import H
 
-LEVEL = "other"
+LEVEL = "model_checking"
+ENGINE = "E-CH+E-TS"
 EXPLANATION = (
+    "E-TS slice: the real add_call_item_to_queue compiled from the AST runs against a user thread calling cancel() "
+    "(bounded model checking over all interleavings, counterexamples replayed on the real method). "
     "Bounded symbolic execution (CrossHair/z3) of the real loky functions against a reference: "
     "map composition for all list contents with lengths/chunk sizes in the stated bounds; inductive step "
     "contracts on the real submit / add_call_item_to_queue / process_result_item bookkeeping from arbitrary "
@@ -10,11 +13,16 @@ EXPLANATION = (
 ASSUMPTIONS = [
     "what fn computes is outside the claim (fn is an injective tuple builder)",
     "real pickling of arguments/results is outside the claim",
-    "interleavings of submit/cancel/dispatch are covered only through the step contracts (each step is atomic "
-    "under the lock the real code holds); the schedule quantifier is decided in C01/C07 models where claimed",
+    "interleavings: one protocol slice is model-checked (manager dispatch racing with Future.cancel, all schedules, "
+    "2 work ids); other interleavings only through the step contracts (each step atomic under the lock the real code holds)",
 ]
 M = "lokyverif.harness.c03_map"
 PE = "loky.process_executor:"
+
+
+def SL(name, builder, K, timeout_s=900, params=None):
+    return ("lokyverif.ets.units_exec", "slice_unit", dict(prop="C03", name=name, builder=builder, K=K,
+                                                            timeout_s=timeout_s, params=params))
 
 
 def units(tier):
@@ -39,4 +47,5 @@ def units(tier):
           [PE + "_ExecutorManagerThread.process_result_item"],
           "ids 0..3 / 0..2, arbitrary pending subset, arbitrary dispatched subset of it, result id in or out of the map, value or exception"),
     ]
+    u.append(SL("slice.x1_dispatch_vs_cancel", "x1_dispatch_vs_cancel", 16))
     return u
